@@ -263,15 +263,15 @@ func isKeyword(tokenName string) bool {
 }
 
 func TestC08Raw(t *testing.T) {
-	evid.Prop(t, "raw", evid.R.N(3000, 40000), genRaw, oracle)
+	evid.Prop(t, "raw", evid.R.N(3000, 12000), genRaw, oracle)
 }
 
 func TestC08Mutated(t *testing.T) {
-	evid.Prop(t, "mut", evid.R.N(4000, 60000), genMut, oracle)
+	evid.Prop(t, "mut", evid.R.N(4000, 15000), genMut, oracle)
 }
 
 func TestC08Grammar(t *testing.T) {
-	evid.Prop(t, "g4", evid.R.N(4000, 60000), genG4(loadGrammar(t)), oracle)
+	evid.Prop(t, "g4", evid.R.N(4000, 15000), genG4(loadGrammar(t)), oracle)
 }
 
 // every corpus query and every prefix of it (enumerated, not sampled)
@@ -280,7 +280,7 @@ func TestC08CorpusPrefixes(t *testing.T) {
 		return
 	}
 	qs := corpus.Queries()
-	step := 1
+	step := 8 // thorough: the shards split the corpus between them (8 shards cover all of it)
 	if !evid.R.Thorough() {
 		step = 7 // quick: every 7th query, all of its prefixes
 	}
